@@ -117,6 +117,12 @@ func (h *Handler) ServeHTTP(w http.ResponseWriter, r *http.Request) {
 		case http.MethodPut:
 			err = h.Backend.Put(w, r)
 		case http.MethodDelete:
+			if s := r.Header.Get("Depth"); s != "" {
+				if _, perr := ParseDepth(s); perr != nil {
+					err = &HTTPError{http.StatusBadRequest, perr}
+					break
+				}
+			}
 			// TODO: send a multistatus in case of partial failure
 			err = h.Backend.Delete(r)
 			if err == nil {
